@@ -226,12 +226,13 @@ class Orbital(object):
         lon = np.where(lon > np.pi, lon - np.pi * 2, lon)
         lon = np.where(lon <= -np.pi, lon + np.pi * 2, lon)
 
-        r = np.sqrt(pos_x ** 2 + pos_y ** 2)
+        r = np.sqrt(pos_x * pos_x + pos_y * pos_y)
         lat = np.arctan2(pos_z, r)
         e2 = F * (2 - F)
         while True:
             lat2 = lat
-            c = 1 / (np.sqrt(1 - e2 * (np.sin(lat2) ** 2)))
+            sinlat2 = np.sin(lat2)
+            c = 1 / (np.sqrt(1 - e2 * (sinlat2 * sinlat2)))
             lat = np.arctan2(pos_z + c * e2 * np.sin(lat2), r)
             if np.all(abs(lat - lat2) < 1e-10):
                 break
@@ -1051,7 +1052,7 @@ class _Keplerians:
         self._xnode = self._params.xnodeo + self._ts * (self._params.xnodot + self._ts * self._params.xnodcf)
 
         delm = self._params.xmcof * \
-            ((1.0 + self._params.eta * np.cos(self._xmp))**3 - self._params.delmo)
+            (_cube(1.0 + self._params.eta * np.cos(self._xmp)) - self._params.delmo)
         self._temp0 = self._ts * self._params.omgcof + delm
         self._xmp += self._temp0
 
@@ -1100,14 +1101,14 @@ class _Keplerians:
                 (self._ts *
                  (self._params.c1 + self._ts * (self._params.d2 + self._ts *
                   (self._params.d3 + self._ts * self._params.d4))))
-        self._a = self._params.aodp * tempa**2
+        self._a = self._params.aodp * (tempa * tempa)
 
         if np.any(self._a < 1):
             raise Exception("Satellite crashed at time %s", self._utc_time)
 
     def _calculate_axn_and_ayn(self):
         e = self._calculate_e(self._tempe)
-        beta2 = 1.0 - e**2
+        beta2 = 1.0 - e * e
 
         # Long period periodics
         sinOMG = np.sin(self.omega)
@@ -1148,7 +1149,7 @@ class _Keplerians:
 
         self._u = np.arctan2(sinu, cosu)
         self._sin2u = 2.0 * sinu * cosu
-        self._cos2u = 2.0 * cosu**2 - 1.0
+        self._cos2u = 2.0 * (cosu * cosu) - 1.0
         self._temp0 = 1.0 / self._pl
         self._temp1 = CK2 * self._temp0
         self._temp2 = self._temp1 * self._temp0
@@ -1214,6 +1215,11 @@ class _Keplerians:
         return kep
 
 
+def _cube(x):
+    # x ** 3 takes different code paths (libm pow / vectorised pow) for numpy scalars and arrays
+    return x * x * x
+
+
 def _check_orbital_elements(orbit_elements):
     if not (0 < orbit_elements.excentricity < ECC_LIMIT_HIGH):
         raise OrbitalError("Eccentricity out of range: %e" % orbit_elements.excentricity)
@@ -1224,7 +1230,7 @@ def _check_orbital_elements(orbit_elements):
 
 
 def _calculate_elsq(axn, ayn, utc_time):
-    elsq = axn**2 + ayn**2
+    elsq = axn * axn + ayn * ayn
 
     if np.any(elsq >= 1):
         raise Exception("e**2 >= 1 at %s", utc_time)
